@@ -146,12 +146,11 @@ Definition full_pairs (n : Z) : list ipair :=
 Definition ofc_nverts (s0 s1 : Z) := s0 * s1.
 Definition ofc_nsites (s0 s1 : Z) := s0 * s1 + ((s0 - 1) * (s1 - 1) + 1) / 2.
 
-(** the four corner links of face (x,y) numbered i, both directions, in the order written *)
+(** the four corners of face (x,y), in the order written; each gets a link in both directions *)
+Definition ofc_corners (s1 x y : Z) : list Z :=
+  [x * s1 + y; x * s1 + (y + 1); (x + 1) * s1 + y; (x + 1) * s1 + (y + 1)].
 Definition ofc_face_links (s1 i x y : Z) : list ipair :=
-  [ (i, x * s1 + y); (x * s1 + y, i);
-    (i, x * s1 + (y + 1)); (x * s1 + (y + 1), i);
-    (i, (x + 1) * s1 + y); ((x + 1) * s1 + y, i);
-    (i, (x + 1) * s1 + (y + 1)); ((x + 1) * s1 + (y + 1), i) ].
+  flat_map (fun j => [(i, j); (j, i)]) (ofc_corners s1 x y).
 
 (** the double loop with its running counter [i]; faces with (x+y) odd are skipped *)
 Definition ofc_face_step (s1 : Z) (st : Z * list ipair) (f : coord) : Z * list ipair :=
@@ -243,31 +242,25 @@ Definition np_delete_rc (p : Z) (a : amat) : amat :=
    map (fun e => (re (fst e), re (snd e)))
        (filter (fun e => negb (fst e =? q) && negb (snd e =? q)) (snd a))).
 
-Definition brick_delete_extra (up : bool) (s0 s1 : Z) (a : amat) : amat :=
+Definition brick_delete_positions (up : bool) (s0 s1 : Z) : list Z :=
   let '(q0, q1) := brick_sq up s0 s1 in
   if up then
-    if 1 <? s1 then
-      let a1 := np_delete_rc ((q0 - 1) * q1) a in
-      if q1 mod 2 =? 0 then np_delete_rc (-1) a1 else np_delete_rc (q1 - 1) a1
-    else a
+    if 1 <? s1 then [(q0 - 1) * q1; if q1 mod 2 =? 0 then -1 else q1 - 1] else []
   else
-    if 1 <? s0 then
-      let a1 := np_delete_rc (q1 - 1) a in
-      if q0 mod 2 =? 1 then np_delete_rc ((q0 - 1) * q1 - 1) a1 else np_delete_rc (-1) a1
-    else a.
+    if 1 <? s0 then [q1 - 1; if q0 mod 2 =? 1 then (q0 - 1) * q1 - 1 else -1] else [].
 
-Definition brick_disconnect_extra (up : bool) (s0 s1 : Z) (a : amat) : amat :=
+Definition brick_disconnect_positions (up : bool) (s0 s1 : Z) : list Z :=
   let '(q0, q1) := brick_sq up s0 s1 in
   if up then
-    if 1 <? s1 then
-      let a1 := np_zero_rc ((q0 - 1) * q1) a in
-      if q1 mod 2 =? 0 then np_zero_rc (-1) a1 else np_zero_rc (q1 - 1) a1
-    else a
+    if 1 <? s1 then [(q0 - 1) * q1; if q1 mod 2 =? 0 then -1 else q1 - 1] else []
   else
-    if 1 <? s0 then
-      let a1 := np_zero_rc (q1 - 1) a in
-      if q0 mod 2 =? 1 then np_zero_rc ((q0 - 1) * q1) a1 else np_zero_rc (-1) a1
-    else a.
+    if 1 <? s0 then [q1 - 1; if q0 mod 2 =? 1 then (q0 - 1) * q1 else -1] else [].
+
+(** the positions are applied one after the other (np.delete renumbers in between) *)
+Definition brick_delete_extra (up : bool) (s0 s1 : Z) (a : amat) : amat :=
+  fold_left (fun a p => np_delete_rc p a) (brick_delete_positions up s0 s1) a.
+Definition brick_disconnect_extra (up : bool) (s0 s1 : Z) (a : amat) : amat :=
+  fold_left (fun a p => np_zero_rc p a) (brick_disconnect_positions up s0 s1) a.
 
 Definition brick_adj (up del : bool) (s0 s1 : Z) : amat :=
   let '(q0, q1) := brick_sq up s0 s1 in
@@ -297,7 +290,7 @@ Definition brick_index_to_coord (up del : bool) (s0 s1 i : Z) : option coord :=
 (** [Some None] = the method returns None (deleted point); [None] = exception *)
 Definition brick_coord_to_index (up del : bool) (s0 s1 c0 c1 : Z) : option (option Z) :=
   let '(q0, q1) := brick_sq up s0 s1 in
-  let fin (shift : Z) := option_map (fun r => Some (r - shift)) (np_ravel [q0; q1] [c0; c1]) in
+  let fin (shift : Z) := option_map Some (option_map (fun r => r - shift) (np_ravel [q0; q1] [c0; c1])) in
   if del then
     if up then
       if 1 <? s1 then
